@@ -443,6 +443,34 @@ func opConv(a map[string]interface{}) (string, string, interface{}) {
 		obs["tabs"] = tabs
 		obs["viss"] = viss
 	}
+	if aBool(a, "fresh3") {
+		// the same conversion in three freshly started processes
+		b := copyArgs(a)
+		delete(b, "fresh3")
+		b["reps"] = 1
+		b["full"] = true
+		cj, _ := json.Marshal(Case{ID: "fresh", Op: "conv", Args: b})
+		fsame := true
+		for k := 0; k < 3; k++ {
+			fo, err := runFresh(cj)
+			if err != nil {
+				obs["freshErr"] = err.Error()
+				fsame = false
+				break
+			}
+			fm, _ := fo.Obs.(map[string]interface{})
+			ft, _ := fm["tab"].(string)
+			fv, _ := fm["vis"].(string)
+			ftc, _ := fm["tcode"].(string)
+			fvc, _ := fm["vcode"].(string)
+			if ft != tabs[0] || fv != viss[0] || ftc != tcode || fvc != vcode {
+				fsame = false
+				obs["freshTab"] = ft
+				obs["freshVis"] = fv
+			}
+		}
+		obs["freshSame"] = fsame
+	}
 	return "ok", "", obs
 }
 
